@@ -21,6 +21,7 @@ fn main() {
     let tier = args.get(2).cloned().or_else(|| std::env::var("VERIF_TIER").ok()).unwrap_or_else(|| "quick".into());
     let tier = if tier == "thorough" { "thorough".to_string() } else { "quick".to_string() };
     let ctx = Ctx { thorough: tier == "thorough", tier };
+    if ctx.thorough { unsafe { std::env::set_var("VERIF_TIER_THOROUGH", "1"); } }
     common::guard::install_hook();
     let code = props::run(&id, &ctx);
     std::process::exit(code);
